@@ -47,6 +47,7 @@ Expected(e) ==
       [] e.op = "full" -> FullStr(e.bits, e.signed)
       \* inverted_rgb on values: r -> full - v, g = 0 -> full, b = full -> 0, alpha kept, and it is an involution
       [] e.op = "invert" -> [off |-> <<atoi(e.v), 0>>, b |-> "0", a |-> "5", back |-> 1]
+      [] e.op = "pixel" -> PixelExp(e.how, e.a, e.b, e.full)
       [] e.op = "cmp" -> CmpMask(e.which, e.a, e.b)
       [] e.op = "minmax" -> MinMax(e.which, e.a, e.b)
       [] e.op = "reduce_i" -> ReduceI(e.which, e.a)
@@ -88,7 +89,8 @@ Named == Step("named")
 Shuf == Step("shuf")
 FullA == Step("full")
 Invert == Step("invert")
-Next == ConvA \/ MatResize \/ Swz \/ Named \/ Shuf \/ FullA \/ Invert \/ Ew1 \/ Ew2 \/ Ew3 \/ MapA \/ CtorV \/ CmpA \/ MinMaxA \/ ReduceIA \/ ArithIA \/ Fold \/ FoldV \/ Real1A
+PixelA == Step("pixel")
+Next == PixelA \/ ConvA \/ MatResize \/ Swz \/ Named \/ Shuf \/ FullA \/ Invert \/ Ew1 \/ Ew2 \/ Ew3 \/ MapA \/ CtorV \/ CmpA \/ MinMaxA \/ ReduceIA \/ ArithIA \/ Fold \/ FoldV \/ Real1A
 Accepted == IF TLCGet("stats").diameter - 1 = Len(Rec) THEN TRUE
             ELSE PrintT(ToJson([tag |-> "REJECTED_AT", l |-> TLCGet("stats").diameter])) /\ FALSE
 =============================================================================
